@@ -880,14 +880,14 @@ SHARED = {
     "C01": [("c09", "r09_3_fast_path_bounds"), ("c10", "r10_14_borrow_and_carry_use_the_right_year"), ("c12", "r12_1_total_order"), ("c09", "r09_2_month_year_clamp"), ("c12", "r12_1b_hebrew_compare"), ("c02", "r02_5_leap_decisions"), ("c13", "r13_1_year_cache_keys"), ("c02", "r02_7_hebrew_molad"), ("c02", "r02_8_registry_round_trip")],
     "C02": [("c13", "r13_1_year_cache_keys"), ("c01", "r01_5_per_year_consistency"), ("c01", "r01_13_days_since_epoch_uses_hooks"), ("c01", "r01_14_gregorian_fast_tables")],
     "C03": [("c11", "r11_4_sign_discipline"), ("c15", "r15_12_timedelta_fields"), ("c15", "r15_13_no_coarser_type_on_the_way"), ("c05", "r05_10_safe_plus_at_the_ends_of_time")],
-    "C04": [("c02", "r02_5_leap_decisions"), ("c05", "r05_10_safe_plus_at_the_ends_of_time"), ("c06", "r06_11_fixed_zone_table")],
+    "C04": [("c05", "r05_11_local_instant_day_range"), ("c02", "r02_5_leap_decisions"), ("c05", "r05_10_safe_plus_at_the_ends_of_time"), ("c06", "r06_11_fixed_zone_table")],
     "C06": [("c04", "r04_8_queries_are_used"), ("c02", "r02_5_leap_decisions"), ("c13", "r13_2_zone_interval_cache"), ("c01", "r01_5_per_year_consistency"), ("c17", "r17_11_offset_bucket_range"), ("c04", "r04_14_weekday_adjustment"), ("c12", "r12_2_3_eq_hash_fields"), ("c17", "r17_1_iso_shape"), ("c04", "r04_15_alternating_map_crosswise_savings"), ("c17", "r17_14_offset_field_getters")],
     "C18": [("c12", "r12_2_3_eq_hash_fields"), ("c09", "r09_12_months_between_is_checked_by_addition"), ("c13", "r13_12_packed_cache_words_are_unpacked"), ("c01", "r01_5_per_year_consistency"), ("c01", "r01_13_days_since_epoch_uses_hooks"), ("c01", "r01_3b_badi_table_readers"), ("c01", "r01_9_badi_year_lengths"), ("c10", "r10_15_single_boundary_fast_path"), ("c12", "r12_1b_hebrew_compare"), ("c13", "r13_20_cache_slots_are_read_once")],
-    "C17": [("c13", "r13_13_bucket_providers_build_fresh_buckets"), ("c07", "r07_2_table_agreement"), ("c07", "r07_4_composite_pairing")],
+    "C17": [("c01", "r01_14_gregorian_fast_tables"), ("c02", "r02_5_leap_decisions"), ("c13", "r13_13_bucket_providers_build_fresh_buckets"), ("c07", "r07_2_table_agreement"), ("c07", "r07_4_composite_pairing")],
     "C12": [("c09", "r09_12_months_between_is_checked_by_addition"), ("c13", "r13_4_publication"), ("c01", "r01_5_per_year_consistency")],
     "C16": [("c13", "r13_10_cache_slot_is_validated_for_its_own_key"), ("c01", "r01_11_trusted_packings"), ("c10", "r10_14_borrow_and_carry_use_the_right_year"), ("c01", "r01_10_year_starts_vs_year_lengths"), ("c01", "r01_5_per_year_consistency"), ("c02", "r02_5_leap_decisions")],
     "C09": [("c01", "r01_11_trusted_packings"), ("c10", "r10_14_borrow_and_carry_use_the_right_year"), ("c13", "r13_10_cache_slot_is_validated_for_its_own_key"), ("c13", "r13_12_packed_cache_words_are_unpacked"), ("c02", "r02_5_leap_decisions"), ("c01", "r01_3c_day_number_guard"), ("c01", "r01_5_per_year_consistency"), ("c03", "r03_16_unit_factories_split_exactly")],
-    "C11": [("c03", "r03_11_trusted_instants"), ("c10", "r10_14_borrow_and_carry_use_the_right_year"), ("c13", "r13_2_zone_interval_cache"), ("c06", "r06_11_fixed_zone_table"), ("c04", "r04_13_wall_offset_decides_local_time"), ("c03", "r03_16_unit_factories_split_exactly"), ("c10", "r10_16_double_carry_is_symmetric"), ("c04", "r04_14_weekday_adjustment"), ("c17", "r17_11_offset_bucket_range"), ("c01", "r01_5_per_year_consistency"), ("c15", "r15_12_timedelta_fields")],
+    "C11": [("c02", "r02_5_leap_decisions"), ("c01", "r01_14_gregorian_fast_tables"), ("c04", "r04_18_transitions_pair_crosswise_and_may_be_at_the_end_of_time"), ("c03", "r03_11_trusted_instants"), ("c10", "r10_14_borrow_and_carry_use_the_right_year"), ("c13", "r13_2_zone_interval_cache"), ("c06", "r06_11_fixed_zone_table"), ("c04", "r04_13_wall_offset_decides_local_time"), ("c03", "r03_16_unit_factories_split_exactly"), ("c10", "r10_16_double_carry_is_symmetric"), ("c04", "r04_14_weekday_adjustment"), ("c17", "r17_11_offset_bucket_range"), ("c01", "r01_5_per_year_consistency"), ("c15", "r15_12_timedelta_fields")],
     "C15": [("c03", "r03_11_trusted_instants"), ("c02", "r02_5_leap_decisions"), ("c03", "r03_15_duration_truncated_views"), ("c01", "r01_14_gregorian_fast_tables"), ("c01", "r01_5_per_year_consistency")],
     "C14": [("c03", "r03_14_tick_arithmetic")],
     "C07": [("c03", "r03_19_total_unit_getter_of_the_duration_patterns"), ("c08", "r08_7_embedded_fields"), ("c17", "r17_8_variable_precision_predicates"), ("c08", "r08_10_field_set_tests"), ("c17", "r17_7_sign_predicates"), ("c17", "r17_2_exact_arithmetic"), ("c17", "r17_14_offset_field_getters"), ("c17", "r17_1_iso_shape"), ("c02", "r02_8_registry_round_trip")],
